@@ -47,6 +47,9 @@ def gen_case_matrix(rng, fmt, rich):
             for s in f["signals"]:
                 s["receivers"] = [r for r in s["receivers"]]
         for s in f["signals"]:
+            if fmt == "xls":
+                # a spreadsheet cell holds a double: value-table keys beyond 2^53 are not expressible
+                s["values"] = {k: v for k, v in s["values"].items() if abs(int(k)) < (1 << 53)}
             if s["float"] and rng.random() < 0.5:
                 s["signed"] = True        # a float's sign flag is free (is_signed defaults to True)
         frames.append(f)
